@@ -156,9 +156,10 @@ class Adapter:
         sizes = zero_sizes(self.c)
         raw = self.raw()
         out = {}
+        live = self.inited()
         for key, size in sizes.items():
             v = raw[key]
-            if v is None:
+            if v is None or not live:
                 out[key] = [0] * size
                 continue
             deg = DEGREE[self.kind][key]
@@ -176,8 +177,11 @@ class Adapter:
     def snapshot(self):
         """Bit-level snapshot of every accumulator (values, shape, dtype) + count, for purity comparisons."""
         raw = {}
+        if self.kind != 'ttest' and not hasattr(self.o, '_origin_shape'):
+            # arrays left behind by a refused first call are dead state (re-created by the next valid call)
+            return {'processed_traces': int(self.o.processed_traces), '_has_origin': False}
         for attr, val in sorted(vars(self.o).items()):
-            if attr in ('_timings', '_origin_shape', 'mean', 'var') or attr.startswith('_tstate') or attr in ('pooled_covariance', 'pooled_covariance_inv'):
+            if attr in ('_timings', '_origin_shape', 'mean', 'var', '_is_checked') or attr.startswith('_tstate') or attr in ('pooled_covariance', 'pooled_covariance_inv'):
                 continue
             if isinstance(val, np.ndarray):
                 raw[attr] = (val.shape, val.dtype.str, np.ascontiguousarray(val).tobytes())
